@@ -37,7 +37,13 @@ inductive Op where
   | logPre (t : Nat) | flip (t : Nat) | undo (t : Nat) | crash (t : Nat)
   | recover (t : Nat)     -- priority rollback of a crashed transaction by someone else
   | restore (t : Nat)     -- a live transaction's own priority rollback after its phase 2 failed: the flip is taken back
+  | lose                  -- the lock service forgets the node's lock (cache restart, eviction, TTL expiry under a slow holder)
 deriving Repr, DecidableEq, Inhabited
+
+/-- the transaction an operation belongs to (`lose` belongs to nobody) -/
+def Op.txn : Op → Option Nat
+  | .lock t | .unlock t | .get t | .reserve t | .stage t | .logPre t | .flip t | .undo t | .crash t | .recover t | .restore t => some t
+  | .lose => none
 
 def Sys.setTxn (s : Sys) (t : Nat) (x : Txn) : Sys := { s with txns := fun k => if k = t then x else s.txns k }
 
@@ -87,8 +93,10 @@ def step (disciplined : Bool) (s : Sys) : Op → Sys
             h := activate i, flips := s.flips ++ [(t, (s.txns t).readVersion)] }
     else s
   | .undo t =>
-    -- rollbackUpdatedNodes: re-read, clear whatever sits in the inactive slot, delete that blob
-    if held s t disciplined && !(s.txns t).installed then
+    -- rollbackUpdatedNodes: re-read, clear whatever sits in the inactive slot, delete that blob. The code runs it only
+    -- for a transaction whose own `commitUpdatedNodes` succeeded (committedState > commitUpdatedNodes): the slot is
+    -- empty or holds the id this transaction allocated — a reservation is released by its owner only.
+    if held s t disciplined && !(s.txns t).installed && (s.h.inactive == 0 || s.h.inactive == (s.txns t).fresh) then
       let x := s.h.inactive
       { (s.setTxn t { s.txns t with img := none, staged := false }) with
           h := if x = 0 then { s.h with wip := 0 } else s.h.clearInactive,
@@ -114,6 +122,7 @@ def step (disciplined : Bool) (s : Sys) : Op → Sys
         { (s.setTxn t { s.txns t with installed := false, img := some i }) with
             h := i, plog := fun k => if k = t then none else s.plog k, flips := s.flips.filter (fun p => p.1 != t) }
     else s
+  | .lose => { s with lock := none }
 
 def run (disciplined : Bool) (s : Sys) (ops : List Op) : Sys := ops.foldl (step disciplined) s
 
